@@ -255,7 +255,7 @@ PROPS["C15"] = dict(
          "variants), then random programs: 4/6 from the C03 generator gen_prog (all constructors, depth 0-4, hints None/exact, "
          "adversarial strings, float specials), 1/6 maps with colliding/repeated keys over several key kinds, 1/6 numeric programs "
          "(boundary integers, f32/f64 of every class in seq/struct/map/variant/option positions). Of the random programs with an "
-         "Option key only 1 in 16 is run as generated (known finding C15-some-key; the driver prints at most 200 failures), the "
+         "Option key only 1 in 16 (thorough: 1 in 40) is run as generated (known finding C15-some-key; the driver prints at most 200 failures), the "
          "others with the Some wrappers removed from keys. A case is non-trivial when the program builds an object (map, struct, "
          "variant with payload), has bytes, a float or a 128-bit integer; distinct = distinct case lines.",
     trusted_base=[KERNEL, TIE,
